@@ -112,7 +112,7 @@ Section WithRecT.
            match w with
            | None => Ok (st2, e)
            | Some v =>
-             match stale_dependents vt st2 n with
+             match stale_dependents vt st2 n e with
              | [] => Ok (st2, v)
              | _ => Fail (FErr EStale) st2
              end
